@@ -21,6 +21,7 @@ import (
 func init() {
 	commands["conc-coll"] = cmdConcColl
 	commands["catcher"] = cmdCatcher
+	commands["catcher-api"] = cmdCatcherAPI
 	streams["conc-coll"] = streamConcColl
 }
 
@@ -306,6 +307,75 @@ func cmdCatcher(o *Out, line string, f []string) {
 	}
 }
 
+// catcher-api <G> <M> <rounds>: in every round a FRESH catcher and G goroutines released together, each adding M errors
+// through the whole adding API in rotation (Add, Extend with nils in the slice, Errorf, New, Wrap, Wrapf, the ...When
+// variants, Check, CheckWhen).  Every non-nil error must be retained exactly once.
+func cmdCatcherAPI(o *Out, line string, f []string) {
+	G, M, R := int(atoi64(f[0])), int(atoi64(f[1])), int(atoi64(f[2]))
+	total, distinct := 0, 0
+	bad := false
+	for r := 0; r < R; r++ {
+		c := util.NewCatcher()
+		var wg sync.WaitGroup
+		start := make(chan struct{})
+		for g := 0; g < G; g++ {
+			wg.Add(1)
+			go func(g int) {
+				defer wg.Done()
+				<-start
+				for i := 0; i < M; i++ {
+					e := fmt.Errorf("e-%d-%d-%d", r, g, i)
+					switch (g + i) % 12 {
+					case 0:
+						c.Add(e)
+					case 1:
+						c.Extend([]error{nil, e, nil})
+					case 2:
+						c.Errorf("e-%d-%d-%d", r, g, i)
+					case 3:
+						c.New(e.Error())
+					case 4:
+						c.Wrap(e, "w")
+					case 5:
+						c.Wrapf(e, "w%d", i)
+					case 6:
+						c.AddWhen(true, e)
+						c.AddWhen(false, errors.New("never"))
+					case 7:
+						c.ExtendWhen(true, []error{e})
+						c.ExtendWhen(false, []error{errors.New("never")})
+					case 8:
+						c.ErrorfWhen(true, "e-%d-%d-%d", r, g, i)
+					case 9:
+						c.NewWhen(true, e.Error())
+					case 10:
+						c.Check(func() error { return e })
+					default:
+						c.CheckWhen(true, func() error { return e })
+						c.Add(nil)
+					}
+				}
+			}(g)
+		}
+		close(start)
+		wg.Wait()
+		errs := c.Errors()
+		seen := map[string]bool{}
+		for _, e := range errs {
+			seen[e.Error()] = true
+		}
+		total += len(errs)
+		distinct += len(seen)
+		if (len(errs) != G*M || len(seen) != G*M || c.Len() != G*M || !c.HasErrors()) && !bad {
+			bad = true
+			o.violation(line, "the catcher did not retain every error added concurrently through its adding methods", map[string]int{"round": r, "added": G * M, "retained": len(errs), "distinct": len(seen)})
+		}
+	}
+	o.emit(line, fmt.Sprintf("retained=%d distinct=%d", total, distinct))
+	o.nontrivial(line)
+	o.count("catcher-api")
+}
+
 func streamConcColl(o *Out, rng *rand.Rand, thorough bool, _ []string) {
 	var lines []string
 	n := 30
@@ -323,6 +393,13 @@ func streamConcColl(o *Out, rng *rand.Rand, thorough bool, _ []string) {
 	}
 	for i := 0; i < 6; i++ {
 		lines = append(lines, fmt.Sprintf("catcher %d %d", 2+rng.Intn(15), 100+rng.Intn(2000)))
+	}
+	nr := 2000
+	if thorough {
+		nr = 30000
+	}
+	for i := 0; i < 3; i++ {
+		lines = append(lines, fmt.Sprintf("catcher-api %d %d %d", 4+rng.Intn(13), 1+rng.Intn(3), nr))
 	}
 	sort.SliceStable(lines, func(i, j int) bool { return false })
 	_ = strings.Join
